@@ -359,6 +359,28 @@ var entries = map[string][]struct {
 			_, err := wsflate.DefaultHelper.Decompress(in)
 			return err
 		}},
+		// one reader taken through sources of different kinds (with and without ReadByte), as a
+		// connection's reader is when it is reset for every message
+		{"FlateReaderReset", func(in []byte, s *budgetReader) error {
+			r := wsflate.NewReader(bytes.NewReader(in), func(x io.Reader) wsflate.Decompressor { return flate.NewReader(x) })
+			io.Copy(io.Discard, io.LimitReader(r, 64<<20))
+			r.Reset(s)
+			_, err := io.Copy(io.Discard, io.LimitReader(r, 64<<20))
+			r.Reset(bytes.NewBuffer(in))
+			io.Copy(io.Discard, io.LimitReader(r, 64<<20))
+			r.Reset(plainReader{bytes.NewReader(in)})
+			io.Copy(io.Discard, io.LimitReader(r, 64<<20))
+			return err
+		}},
+		{"FlateReaderReset2", func(in []byte, s *budgetReader) error {
+			r := wsflate.NewReader(s, func(x io.Reader) wsflate.Decompressor { return flate.NewReader(x) })
+			_, err := io.Copy(io.Discard, io.LimitReader(r, 64<<20))
+			r.Reset(bytes.NewReader(in))
+			io.Copy(io.Discard, io.LimitReader(r, 64<<20))
+			r.Reset(plainReader{bytes.NewReader(in)})
+			io.Copy(io.Discard, io.LimitReader(r, 64<<20))
+			return err
+		}},
 	},
 }
 
